@@ -10,13 +10,24 @@ cache flag" / "value + mode"); after every edit the two sides must agree on
 The model is the mechanism (which sub spaces each operation walks and what it does to each), not the specification;
 `Props/C03.lean` proves that the mechanism keeps the state equal to derivation from scratch.
 
+The state also lists the model-level references.  `obj.name = v` and `del obj.name` are dispatched on what the name is
+in the live model BEFORE the edit (`struct_api_gen.name_kind`): an attribute of the interface class never reaches
+modelx' own set_attr / del_attr, assigning to a cells without parameters is a value assignment, `del space.name` deletes
+a cells, a child space or a reference - in these cases the model is asked the operation that it is, or only that the
+state is unchanged.  `new_cells` sends the name given AND the name of the formula; the model applies the naming rule
+(`St.newCellsNamed`); references handed to `new_space(refs=...)` travel with the operation.
+
 Vocabulary not in the model (object-valued references and their relative rebinding, renaming of spaces): the
-correspondence of a history ends at the first such edit that the implementation accepts.
+correspondence of a history ends at the first such edit that the implementation accepts.  It also ends, without a
+report of its own, at an edit that is an instance of a known finding on which the model (which describes the repaired
+code) and the unchanged code differ - recognised on the implementation's state alone (`struct_api_gen`), and reported
+by the property's own oracle.
 """
 import re
 
 from . import core
 from . import structworld as W
+from . import struct_api_gen as api
 
 NONSTRUCT = ("eval", "evalall", "set_value", "clear", "clear_all", "clear_at", "allow_none", "set_param", "eval_item")
 
@@ -60,7 +71,7 @@ def impl_state(model, intern):
             r = s._impl.own_refs[rn]
             refs.append("%s:%s:%d" % (rn, "d" if r.is_derived() else "o", intern(ref_key(r))))
         rows.append("%s bases=%s mro=%s cells=%s refs=%s" % (path, bases, mro, ",".join(cells), ",".join(sorted(refs))))
-    return " | ".join(sorted(rows))
+    return " | ".join(sorted(rows)) + " || globals=" + ",".join(sorted(k for k in model.refs if not k.startswith("__")))
 
 
 def is_obj(v):
@@ -76,6 +87,7 @@ class MechCorr:
         self.expect = [None]        # per line: expected output or None (not compared)
         self.where = [None]         # per line: index of the op in the history
         self.alive = True
+        self.ended = None           # (index, kind) of the edit at which the correspondence of the history ended early
         self.noop = False
         self.compared = 0
 
@@ -91,11 +103,40 @@ class MechCorr:
         """what has to be read before the edit: `Cells.is_cached = v` returns at once when the flag already is `v`
         (the interface's setter, not the SpaceManager)"""
         self.noop = False
-        if self.alive and op[0] == "set_cached":
+        self.pre_kind = None
+        self.pre_cells = None
+        self.pre_canadd = True
+        self.pre_defined_ref = False
+        if not self.alive:
+            return
+        if op[0] == "set_cached":
             try:
                 self.noop = bool(live.space(op[1]).cells[op[2]].is_cached) == bool(op[3])
             except Exception:   # noqa
                 self.noop = False
+        elif op[0] in ("set_ref", "del_ref"):
+            self.pre_kind = api.name_kind(live, op[1], op[2])
+            try:
+                refs = live.space(op[1])._impl.own_refs
+                self.pre_defined_ref = op[2] in refs and refs[op[2]].is_defined()
+            except Exception:   # noqa
+                self.pre_defined_ref = False
+        elif op[0] in ("set_mref", "del_mref"):
+            self.pre_kind = api.name_kind(live, None, op[1], model_level=True)
+        elif op[0] == "del_space" and isinstance(op[1], str):
+            # `del parent.name`
+            par, _, nm = op[1].rpartition(".")
+            self.pre_kind = api.name_kind(live, par, nm, model_level=not par)
+        elif op[0] in ("new_cells", "new_cells_src"):
+            try:
+                sp = live.space(op[1])
+                self.pre_cells = set(sp.cells)
+                # the check `new_cells` would make if the name of the formula had been given explicitly
+                self.pre_canadd = (api.resolved_kind(op) != "formula"
+                                   or bool(sp._impl.spmgr._can_add(sp._impl, api.formula_name(op), W.mx.core.cells.CellsImpl)))
+            except Exception:   # noqa
+                self.pre_cells = None
+                self.pre_canadd = True
 
     def after(self, live, k, op, result):
         if not self.alive:
@@ -123,15 +164,39 @@ class MechCorr:
         try:
             if kind == "new_space":
                 f = ["newspace", op[1], op[2], self.csv(op[3])]
+                if len(op) > 4 and op[4]:
+                    refs = dict(op[4])
+                    if any(is_obj(v) for v in refs.values()):
+                        f = UNM if acc else None
+                    elif acc and api.trigger(live, op, result) == api.KEY_CTORREFS:
+                        f = UNM         # known finding: the unchanged code accepts what the repaired code (the model) refuses
+                    else:
+                        path = op[2] if op[1] == "-" else op[1] + "." + op[2]
+                        f.append(",".join("%s=%d" % (n, rpay(path, n) if acc else 0) for n in refs))
             elif kind == "del_space":
-                f = ["delspace", op[1]]
+                f = ["delspace", op[1]] if self.pre_kind != "iface" else ["obs"]
             elif kind in ("new_cells", "new_cells_src"):
-                if op[3] == "BAD":
+                given = op[2] if isinstance(op[2], str) and op[2] else "-"
+                fname = api.formula_name(op)
+                if op[3] == "BAD" or (kind == "new_cells_src" and op[3] is not None and not isinstance(op[3], str)):
                     f = UNM if acc else None
-                elif acc and (not isinstance(op[2], str) or op[2] not in live.space(op[1]).cells):
-                    f = UNM         # the cells was given another name (AutoNamer: outside the model)
+                elif not acc:
+                    # a refusal for a reason the model does not know (malformed formula) is not compared
+                    f = ["newcells", op[1], given, fname, "0"] if result != "err Syntax" else None
                 else:
-                    f = ["newcells", op[1], op[2], str(cpay(op[1], op[2]) if acc else 0)]
+                    now = set(live.space(op[1]).cells)
+                    how = api.resolved_kind(op)
+                    actual = op[2] if how == "given" else fname if how == "formula" else None
+                    if actual is None:
+                        new = sorted(now - (self.pre_cells or set()))
+                        actual = new[0] if len(new) == 1 else None
+                    if actual is None or actual not in now:
+                        f = UNM
+                    elif how != "given" and (api.trigger(live, op, result) == api.KEY_CELLSNAME
+                                             or actual in (self.pre_cells or ()) or not self.pre_canadd):
+                        f = UNM         # known finding: the name the cells got was never checked (clash / silent replacement)
+                    else:
+                        f = ["newcells", op[1], given, fname, str(cpay(op[1], actual))]
             elif kind in ("set_formula", "set_cached"):
                 if kind == "set_formula" and op[3] == "BAD":
                     f = UNM if acc else None
@@ -148,28 +213,53 @@ class MechCorr:
             elif kind == "set_ref":
                 if is_obj(op[3]):
                     f = UNM if acc else None
+                elif self.pre_kind in ("iface", "scalar"):
+                    f = ["obs"]         # not a reference edit: the structural state is what it was
                 else:
                     f = ["setref", op[1], op[2], str(rpay(op[1], op[2]) if acc else 0)]
             elif kind == "del_ref":
-                f = ["delref", op[1], op[2]]
+                # `del space.name` deletes whatever the name is in the namespace of the space
+                if not acc and self.pre_defined_ref and api.trigger(live, op, result) in (api.KEY_CTORREFS, api.KEY_DELDREF):
+                    f = UNM             # known finding: the reference was deleted, then the operation raised
+                elif self.pre_kind == "iface":
+                    f = ["obs"]
+                elif self.pre_kind in ("cells", "scalar"):
+                    f = ["delcells", op[1], op[2]]
+                elif self.pre_kind == "space":
+                    f = ["delspace", op[1] + "." + op[2]]
+                else:
+                    f = ["delref", op[1], op[2]]
             elif kind == "set_mref":
                 if is_obj(op[2]):
                     f = UNM if acc else None
+                elif self.pre_kind == "iface":
+                    f = ["obs"]
                 else:
                     f = ["setglobal", op[1]]
             elif kind == "del_mref":
-                f = ["delglobal", op[1]]
+                if self.pre_kind == "iface":
+                    f = ["obs"]
+                elif self.pre_kind == "space":
+                    f = ["delspace", op[1]]
+                else:
+                    f = ["delglobal", op[1]]
             else:
                 f = UNM if acc else None
         except Exception:   # noqa  (malformed op of the bad stream)
             f = UNM if acc else None
         if f == UNM:
             self.alive = False
+            self.ended = (k, kind)
             return
         if f is None:
             return
-        if not all(isinstance(x, str) and x and not re.search(r"\s", x) for x in f):
-            # names with blanks, None, ... of the malformed stream cannot travel through the line protocol
+        if f == ["obs"]:
+            self._emit("obs", impl_state(m, self.intern), k)
+            return
+        if not all(isinstance(x, str) and x and x.isascii() and not re.search(r"\s", x) for x in f):
+            # names with blanks, None, ... of the malformed stream cannot travel through the line protocol; the name
+            # kernel of the model (Names.isValidName) is the ASCII part of str.isidentifier(): non-ASCII identifiers,
+            # which the code accepts, are outside the model
             if acc:
                 self.alive = False
             return
